@@ -343,22 +343,29 @@ func c04Readers(c *core.Ctx) {
 			c.HoldTrivial("R3", "get:return=nil", r.Pos(), "returns nil value")
 			continue
 		}
-		// must be <clone>.value with clone = recv.store[p0].Clone()
-		okClone := rc == "recv.store[p0].Clone().value"
-		// RemoveTombstones on the same expression with the zero time, executed whenever value != nil
+		// the returned object must be a clone derived from the store entry of the key
+		okClone := strings.Contains(rc, "recv.store[p0]") && strings.Contains(rc, ".Clone()")
+		// RemoveTombstones on exactly the returned object with the zero time, executed whenever it is non-nil
 		var rt *an.Call
 		for i := range rtCalls {
 			sel, _ := an.Unparen(rtCalls[i].Expr.Fun).(*ast.SelectorExpr)
-			if sel != nil && get.Canon(sel.X) == rc && len(rtCalls[i].Expr.Args) == 1 && get.Canon(rtCalls[i].Expr.Args[0]) == "time.Time{}" {
+			if sel == nil {
+				continue
+			}
+			recvC := get.Canon(sel.X)
+			if recvC == rc && len(rtCalls[i].Expr.Args) == 1 && get.Canon(rtCalls[i].Expr.Args[0]) == "time.Time{}" {
 				rt = &rtCalls[i]
+			}
+			if !strings.Contains(recvC, ".Clone()") {
+				c.Viol("R3", "get:strip-on-store", rtCalls[i].Expr.Pos(), "RemoveTombstones is applied to "+recvC+", which is not a clone: reading would delete tombstones from the replicated state")
 			}
 		}
 		if !okClone {
-			c.Viol("R3", "get:return", r.Pos(), "get returns "+rc+", expected the value of a Clone() of the store entry (recv.store[key].Clone().value)")
+			c.Viol("R3", "get:return", r.Pos(), "get returns "+rc+", expected a Clone() derived from the store entry recv.store[key]")
 			continue
 		}
 		if rt == nil {
-			c.Viol("R3", "get:strip", r.Pos(), "no RemoveTombstones(time.Time{}) call on the returned clone")
+			c.Viol("R3", "get:strip", r.Pos(), "no RemoveTombstones(time.Time{}) call on the returned clone ("+rc+")")
 			continue
 		}
 		bd := &an.Binder{Fn: get, Eq: map[string]string{rc + "|nil": "isnil"}, Unknown: map[string]bool{}}
